@@ -103,13 +103,13 @@ PROPS["C17"] = P(["codec", "driver", "driver_run", "dispatch", "logwriter"],
     "Trusted: " + TB_COMMON + " env/codec_env.rs: BytesMut (split_to, range index, len), and the std semantics of iter().zip(iter().skip(1)).position(pred) (first index whose pair satisfies the predicate) as an env iterator model; the predicate closure itself is checked (E8). utf8() is under an assumed contract; encode() is verified against vstd's UTF-8 view of str (spec_bytes): the frame written is the text's bytes followed by exactly \"\\n\\n\". "
     "env/driver_env.rs: tokio mpsc send/try_send, the two json! reply shapes as opaque constructors. NOT APPLICABLE clauses: FramedRead's read loop (tokio-util), that every request reaches dispatch_one and its task is spawned (boxed callbacks, tokio::spawn), non-interleaved concurrent writes (tokio::spawn'ed boxed callbacks, json!, FramedWrite behind a mutex), JSON well-formedness (serde_json).",
     assumptions=["tokio-util FramedRead appends the bytes read and calls decode until it returns None", "std slice iteration semantics (env model)"],
-    not_covered=["JsonRpc::deserialize (request / notification classification by the `id` member: serde glue around a derive inside the function)", "dispatch_one outside its three slices -- reply path, and the two tails that start the handler tasks (no suspension point after the message was read; each handler started exactly once as a task of its own) -- i.e. the lookup of method / params / callback (src/cln_plugin/mod.rs), and the cancellation of partially executed select! branch futures: PluginDriver::run is verified with every branch future as one atomic, cancellation-safe call (E3 refuses anything else: exit 2), dispatch_one being ASSUMED cancellation safe"])
+    not_covered=["JsonRpc::deserialize (request / notification classification by the `id` member: serde glue around a derive inside the function)", "dispatch_one outside its four slices -- lookup of method / handler / params of a request, reply path, and the two tails that start the handler tasks (no suspension point after the message was read; each handler started exactly once as a task of its own) -- i.e. the match on the message kind and the notification arm's member lookup (src/cln_plugin/mod.rs), and the cancellation of partially executed select! branch futures: PluginDriver::run is verified with every branch future as one atomic, cancellation-safe call (E3 refuses anything else: exit 2), dispatch_one being ASSUMED cancellation safe"])
 
 PROPS["C19"] = P(["config", "provider", "initopts", "optread"],
     "Proof (Verus) on two E6 slices of main() (src/main.rs): (a) from the first cp.option(..) to the construction of the payment provider, (b) the statement that builds HtlcManager::new(HtlcManagerParams{..}): it refuses to start iff a value is out of its target range or policy delta <= safety delta; (c) the statement of Builder::handle_init (src/cln_plugin/mod.rs) that turns the `init` message's JSON value into the option's value: the configured string/integer/bool exactly, the declared default when absent, no normal return for any other JSON type; otherwise safety delta, advertised/enforced policy, MPP timeout, self-route-hint flag, payment timeout and xpay equal the configured values (options are distinct opaque tokens, so a swapped option is a failed obligation). PayPaymentProvider::new caps the retry time at 65535 s. (d) unit optread: the statement of handle_init that stores the value (under exactly the option's own name, other entries untouched), ConfiguredPlugin::option / option_str (the value stored under the option's own name, read through the option's own OptionType::from_value; an unregistered name is an error), and the OptionType impls of the integer / boolean / flag kinds (from_value returns exactly the stored integer / boolean or does not return; declared defaults are offered unchanged).",
     "Trusted: " + TB_COMMON + " env/config_env.rs (ConfiguredPlugin::option returns the value CLN delivered: uninterpreted cfg_*; E11: option descriptors become opaque distinct tokens, name/default/description dropped). HtlcManager::new is verified to store the parameters as given; PayPaymentProvider::new enters under its contract (proved in unit provider). The statements of main() between the two slices (block watcher start, store, e-mail service) are not under contract; that the locals flowing from slice (a) into slice (b) are the same is plain data flow of main() (no reassignment), checked by rustc's immutability (the locals are not `mut`).",
     assumptions=["the option table handle_init fills is the one ConfiguredPlugin::option reads (Builder::configure moves `option_values` into the ConfiguredPlugin: one struct-literal field, not under contract); std HashMap insert/get semantics (env model)"],
-    not_covered=["statements of main() between the two slices", "in handle_init a number that is not an i64 must make the plugin refuse (panic): Verus cannot tell a panic from 'continues with some integer', so only 'nothing other than the configured integer' is decided"])
+    not_covered=["statements of main() outside its four slices (options, watcher, manager, state): the e-mail service, the store constructor, cp.start / join"])
 
 PROPS["C20"] = P(["height", "rpc", "hooks", "dispatch"],
     "Proof (Verus): update_height leaves the shared cell at max(value found under the lock, new height) = the maximum of all heights told so far, never lower than before; new_block, poll_height and current_height reach the cell only through update_height / a read under the same mutex. Holds under every interleaving because the update is one critical section and every other updater guarantees the same postcondition. Catch-up clause in its safety form: the polling task poll_forever (verbatim, E3 on its select!, loop invariant) never asks the timer for a wait longer than the declared POLL_INTERVAL and starts a new wait only when every earlier wake-up was followed by a poll_height call (failed polls included); a successful poll leaves the height at least at what the node reported. That the timer fires and the task is scheduled in time is not applicable.",
